@@ -42,6 +42,37 @@ def random_job(rng, idx, outdir, nmax=40, threads=(2, 3, 4, 8), kinds=("forest",
     return j
 
 
+def uptri_pattern(rng, nmax=24, relax=3):
+    """unsymmetric block patterns for the symmetric mode: blocks whose upper triangle is (nearly) dense, with a few full
+    columns, followed by dense / random blocks -- the column counts of A'+A then exceed the rows A has in a relaxed
+    supernode, the case the max() in p?PresetMap is there for.  Returns (n, row-major 0/1 string)."""
+    sizes = []
+    while sum(sizes) < 4 or (sum(sizes) < nmax - 3 and rng.random() < 0.6):
+        sizes.append(rng.randint(2, 10))
+    n = min(sum(sizes), 60)
+    pat = [[0] * n for _ in range(n)]
+    o = 0
+    for b in sizes:
+        b = min(b, n - o)
+        if b <= 0:
+            break
+        kind = rng.choice(["uptri", "uptri", "dense", "rand"])
+        fillp = rng.choice([1.0, 1.0, 0.9])
+        for j in range(o, o + b):
+            for i in range(o, o + b):
+                if i == j or kind == "dense" or (kind == "uptri" and i <= j and rng.random() < fillp) or (kind == "rand" and rng.random() < 0.4):
+                    pat[i][j] = 1
+        if kind == "uptri":
+            full = rng.sample(range(o, o + b), rng.choice([1, 1, 2]))
+            if rng.random() < 0.6 and relax < b:      # the first column behind a relaxed supernode at the bottom of the chain
+                full = [o + relax]
+            for c in full:
+                for i in range(o, o + b):
+                    pat[i][c] = 1
+        o += b
+    return n, "".join(str(pat[i][j]) for i in range(n) for j in range(n))
+
+
 def run_jobs(jobs, outdir, prec="d", variant="verif", shards=NCPU, env=None):
     """Run the jobs through drv_pipe, sharded over processes; returns {id: status}."""
     exe = driver(prec, variant)
